@@ -185,7 +185,7 @@ class Check:
     def write_replay(self, job, label, vals):
         rd = os.path.join(VERIF, 'replays', self.pid)
         os.makedirs(rd, exist_ok=True)
-        fn = os.path.join(rd, '%s.%s.in' % (job.name.replace('/', '_'), re.sub(r'[^A-Za-z0-9]+', '_', label)[:40]))
+        fn = os.path.join(rd, '%s.%s-%s.in' % (job.name.replace('/', '_'), re.sub(r'[^A-Za-z0-9]+', '_', label)[:40], hashlib.sha1(label.encode()).hexdigest()[:6]))
         with open(fn, 'w') as f:
             f.write('# property=%s job=%s\n' % (self.pid, job.name))
             f.write('# harness=%s entry=%s defs=%s\n' % (job.harness, job.entry, ' '.join(job.defs)))
